@@ -38,6 +38,16 @@ def opOds (args : List String) : String :=
       | .formatError => "data:Format"
       | .unsupported => "unsupported"
     "M=" ++ res ++ "\tX=" ++ encXml tree
+  -- the same with every second cell of every row stored as covered cell (`coverDoc`)
+  | ["odsc", feats, sheet, doc] =>
+    let b (i : Nat) : Bool := (feats.toList.getD i '0') == '1'
+    let f : OdsFeatures := { colRuns := b 0, rowRuns := b 1, whitespace := b 2, spans := b 3, paragraphs := b 4 }
+    let tree := coverDoc (encodeDoc f (decDoc doc))
+    let res := match odsRows (some tree) sheet.toNat! with
+      | .rows r => "ok " ++ encOptRows r
+      | .formatError => "data:Format"
+      | .unsupported => "unsupported"
+    "M=" ++ res ++ "\tX=" ++ encXml tree
   | _ => "bad-op"
 
 end Driver
